@@ -30,7 +30,7 @@ REQUIRED = {"wild.no_success_verdict_with_failed_elements": {"quick": 8, "thorou
             "fault.hook_makes_run_fail": {"quick": 300, "thorough": 20000}, "fault.cleanup_makes_run_fail": {"quick": 100, "thorough": 5000},
             "exit_code.matches_model": {"quick": 12, "thorough": 300},
             "verdict.failing_sub_step_of_execute_steps_makes_run_fail": {"quick": 200, "thorough": 10000}}
-REQUIRED_SEEN = {"features_named_by_list_file": ["wildcard_line", "explicit_names"], "only_cause": ["failed_scenario", "aborted", "aborted_without_failed_scenario", "hook_failure", "cleanup_failure",
+REQUIRED_SEEN = {"nested_block_shape": ["alone", "first_of_three", "middle_of_three", "last_of_three"], "features_named_by_list_file": ["wildcard_line", "explicit_names"], "only_cause": ["failed_scenario", "aborted", "aborted_without_failed_scenario", "hook_failure", "cleanup_failure",
                                 "undefined_dry_run"],
                  "verdict": ["failed", "success"], "file_filter": ["include+exclude:file_matching_both"],
                  "nested_sub_step_outcome": ["fail", "error", "pending", "undefined", "pass"], "tag_name_class": ["contains_operator_word", "rendered_from_special_placeholder"],
@@ -91,11 +91,19 @@ def nested_verdict(lab, mon, rng):
         if text == outer and not nest["busy"]:
             nest["busy"] = True
             try:
-                context.execute_steps(u"Given %s\n" % sub)
+                context.execute_steps(block)
             finally:
                 nest["busy"] = False
+    # the sub-step alone, or in a block between / in front of passing sub-steps (the block stops at the first one that does not pass)
+    shape = rng.choice(["alone", "first_of_three", "middle_of_three", "last_of_three"])
+    others = ["k9%d sub step" % rng.randrange(10000, 99999) for _ in range(2)]
+    for o_ in others:
+        case["program"]["outcomes"][o_] = "pass"
+    order = {"alone": [sub], "first_of_three": [sub] + others, "middle_of_three": [others[0], sub, others[1]], "last_of_three": others + [sub]}[shape]
+    block = u"".join(u"%s %s\n" % (("Given" if j_ == 0 else "And"), t_) for j_, t_ in enumerate(order))
+    mon.seen("nested_block_shape", shape)
     obs = lab.run(case["program"], args=case["args"], step_plugins=[plugin])
-    c2 = dict(case, nested={"outer_step": outer, "sub_step": sub, "sub_step_outcome": sub_outcome})
+    c2 = dict(case, nested={"outer_step": outer, "sub_steps": order, "sub_step_outcome": sub_outcome})
     mon.case(("nested", RB.strip_case(case), outer, sub_outcome), True)
     if obs.escaped is not None:
         mon.check("verdict.no_exception_escapes", False, lambda: RB.witness(c2, escaped=repr(obs.escaped)))
